@@ -121,7 +121,13 @@ pub fn create_module() -> Scope {
         });
         let v = {
             let mut v = CALL_ID.lock().unwrap();
+            #[cfg(kaj_rsass_verif)]
+            crate::verif::yield_point("unique_id");
             *v += 1;
+            #[cfg(kaj_rsass_verif)]
+            crate::verif::emit(|| {
+                format!("{{\"ev\":\"Issue\",\"id\":\"{:x}\"}}", *v)
+            });
             *v
         };
         Ok(format!("x{v:x}").into())
